@@ -322,7 +322,29 @@ def run(ctx):
         prog, root, inputs = gen.gen_case(rng, gen.Cfg(), 4)
         jobs.append(dict(prog=prog, root=root, inputs=list(inputs) + rng.sample(BOUNDARY, 5),
                          entries=[("parse", ()), ("parseAll", ()), ("scan", (100, True, False)), ("split", (100,))], modes=[("none",)]))
-    corr_parse.run_jobs(ctx, "model-vs-real:boundary", jobs)
+    res = corr_parse.run_jobs(ctx, "model-vs-real:boundary", jobs)
+    # a diff on which the real code reports a location beyond len+1 is a failing input outright: the model's locations
+    # are proved to lie inside the string (parse_locations_inside / parseString_error_loc_inside)
+    import re as _re
+    nrep = 0
+    for d in res[0]:
+        c = d["case"]
+        lim = len(c["input"].expandtabs()) + 1
+        if c["entry"] == "scan":
+            ends = [int(x) for x in _re.findall(r" (\d+)\)(?= |\))", d["impl"])]
+            m = _re.match(r"x", "x") if any(e > lim for e in ends) else None
+            over = max(ends) if ends else 0
+        elif c["entry"] in ("parse", "parseAll"):
+            m = _re.match(r"\((?:fail \w+|ok) (\d+)", d["impl"])
+            over = int(m.group(1)) if m else 0
+        else:
+            continue
+        if m and over > lim and nrep < 2:
+            nrep += 1
+            ctx.fail_input("a reported location lies outside the parsed string",
+                           {"corr": True, "prog": c["prog"], "root": c["root"], "input": c["input"], "entry": c["entry"]},
+                           "loc <= len + 1 (model: " + d["model"][:80] + ")", d["impl"][:120],
+                           theorem="PP.Parse.parse_locations_inside + correspondence")
     mult = 5 if (ctx.broken and not ctx.fail_inputs) else 1
     mj = [dict(prog=j["prog"], root=j["root"], inputs=j["inputs"][:6]) for j in jobs[: ctx.budget(400, 4000) * mult]]
     report(ctx, "oracle:modelled", common.pmap(modelled_job, mj), [json.dumps(j["prog"])[:200] for j in mj])
@@ -337,6 +359,17 @@ def run(ctx):
 
 
 def replay(data):
+    if data.get("replay_kind") == "failing-input" and data["case"].get("corr"):
+        c = data["case"]
+        pp = common.import_pyparsing()
+        root = gram.prepare(gram.build(pp, c["prog"]), c["root"])
+        if c["entry"] == "scan":
+            return any(e > len(c["input"].expandtabs()) + 1 for _, _, e in root.scan_string(c["input"]))
+        try:
+            r = root.parse_string(c["input"], parse_all=(c["entry"] == "parseAll"))
+            return False
+        except pp.ParseBaseException as ex:
+            return ex.loc > len(ex.pstr) + 1
     pp = common.import_pyparsing()
     if data.get("replay_kind") == "failing-input":
         c = data["case"]
